@@ -193,6 +193,40 @@ def run(ctx):
         if worst > 1e-8:
             ctx.disagree("transform:wide-sector", f"transform on a {len(astr)} x {len(bstr)} sector differs from Gamma((R P)^dagger) psi by {worst:.2e}", desc)
 
+    # ---- rotations a spin-conserving wavefunction cannot carry: spin-mixing blocks (also 1 x 1 blocks and constant
+    #      blocks), a matrix whose size is neither norb nor 2 norb — refused, never answered with an unrotated or
+    #      non-normalised state --------------------------------------------------------------------------------------
+    import copy as _copy
+    for case in range(8 if quick else 40):
+        norb = rng.choice([1, 1, 2, 3])
+        n_ = rng.randint(1, 2 * norb - 1) if norb > 1 else 1
+        szs = [s_ for s_ in range(-n_, n_ + 1, 2) if (n_ + s_) // 2 <= norb and (n_ - s_) // 2 <= norb]
+        w = fqe.Wavefunction([[n_, rng.choice(szs), norb]])
+        U.random_fill(w, rng, zero_p=0.0)
+        w.normalize()
+        th = rng.choice([0.3, 0.7, 1.2])
+        mix = numpy.zeros((2 * norb, 2 * norb), dtype=numpy.complex128)
+        mix[:norb, :norb] = numpy.cos(th) * numpy.eye(norb)
+        mix[norb:, norb:] = numpy.cos(th) * numpy.eye(norb)
+        blk = numpy.eye(norb) if case % 2 == 0 else numpy.ones((norb, norb)) / norb
+        mix[:norb, norb:] = numpy.sin(th) * blk
+        mix[norb:, :norb] = -numpy.sin(th) * blk.T
+        for label, rot in (("spin-mixing", mix), ("wrong-size", numpy.eye(2 * norb + 1, dtype=numpy.complex128))):
+            before = U.wfn_dict(w)
+            ww = _copy.deepcopy(w)
+            try:
+                res = ww.transform(rot)
+                refused = False
+            except Exception:
+                refused = True
+            ctx.case(("transform-refusal", case, label))
+            ctx.count(f"refusal:{label}:{'refused' if refused else 'answered'}")
+            if not refused:
+                ctx.disagree(f"transform:{label}-rotation-answered", f"transform accepted a {label} rotation of size {rot.shape[0]} "
+                             f"for norb = {norb} (norm of the returned state {res[3].norm():.6f})", {"norb": norb, "case": case, "kind": label})
+            if U.wfn_dict(w) != before:
+                ctx.disagree("transform:operand-changed", "the source wavefunction changed", {"norb": norb, "case": case})
+
 
 def replay(ctx, rep):
     run(ctx)
